@@ -457,6 +457,52 @@ fn check_identity_session(case: &Json, stats: &mut Stats) -> Verdict {
     }
 }
 
+/// one object of the standard library reached from two threads: the value an expression has in a
+/// program run on another thread is handed to a session on this thread as `last`; it is the same object
+/// as the one the expression denotes here
+fn check_identity_threads(case: &Json, stats: &mut Stats) -> Verdict {
+    let expr = case["expr"].as_str().unwrap_or("std.len").to_string();
+    let e2 = expr.clone();
+    let elsewhere = std::thread::Builder::new()
+        .stack_size(64 << 20)
+        .spawn(move || {
+            crate::run::default_budget();
+            crate::run::run_text(&e2, true)
+        })
+        .expect("spawn")
+        .join()
+        .expect("join");
+    let Outcome::Value(v) = elsewhere else {
+        return fail("C19:identity-threads:setup", format!("`{expr}` on another thread: {}", elsewhere.short()));
+    };
+    crate::run::default_budget();
+    let mut interp = crate::run::interpreter(true);
+    interp.insert("last".into(), v.clone());
+    let program = format!("m := match last {{ ({expr}) => true, => false, }}; (last == {expr}, last != {expr}, {expr} == last, m, [last] == [{expr}])");
+    stats.evals(2);
+    stats.nontrivial(&expr);
+    stats.label("identity: one std object reached from two threads");
+    let want = lit::tuple(vec![json!(true), json!(false), json!(true), json!(true), json!(true)]);
+    let o = match crate::run::parse_guarded(&interp, &program) {
+        Ok(Ok(code)) => crate::run::exec_unscoped_guarded(&code, &mut interp),
+        Ok(Err(k)) => Outcome::Rejected(k),
+        Err(o) => o,
+    };
+    let here = crate::run::run_text(&expr, true);
+    if let Outcome::Value(w) = &here
+        && *w != v
+    {
+        return fail("C19:identity-threads:host", format!("the value of `{expr}` obtained on another thread is not == (host side) to its value on this thread"));
+    }
+    match &o {
+        Outcome::Value(got) if lit::from_var(got).as_ref() == Some(&want) => Verdict::Pass,
+        o => fail(
+            "C19:identity-threads:same-object",
+            format!("`{program}` with `last` = the value of `{expr}` on another thread: {} (expected {})", o.short(), lit::show(&want)),
+        ),
+    }
+}
+
 /// hand-written identity programs: (program yielding (l == r, l != r, r == l), same object?)
 fn identity_catalogue() -> Vec<(&'static str, bool)> {
     vec![
@@ -528,6 +574,9 @@ impl Property for C19Prop {
         }
         if case["kind"] == "identity-session" {
             return check_identity_session(case, stats);
+        }
+        if case["kind"] == "identity-threads" {
+            return check_identity_threads(case, stats);
         }
         let (x, y) = (&case["x"], &case["y"]);
         let (px, py) = (case["px"].as_str().unwrap_or("literal"), case["py"].as_str().unwrap_or("literal"));
@@ -659,6 +708,9 @@ pub fn run(session: &Session) -> i32 {
     }
     for (program, same) in identity_catalogue() {
         cases.push(json!({"kind": "identity", "program": program, "same": same}));
+    }
+    for expr in ["std.len", "std.convert.to_string", "std.convert.parse_int", "std.string.trim", "std.operators.int_sum", "std.operators.float_product", "std.math", "std.convert", "std", "[std.len, std.string.trim]", "struct{f := std.len}"] {
+        cases.push(json!({"kind": "identity-threads", "expr": expr}));
     }
     for (inputs, same) in IDENTITY_SESSIONS {
         cases.push(json!({"kind": "identity-session", "inputs": inputs, "same": same}));
